@@ -45,20 +45,29 @@ type CS3 struct {
 }
 
 type concShared struct {
-	exprs   []jp.Expr
-	scripts []*jp.Script
-	optsS   *ojg.Options // sorted, shared by every goroutine
-	optsI   *ojg.Options
-	recomp  *alt.Recomposer
+	exprs     []jp.Expr
+	scripts   []*jp.Script
+	mvExprs   []jp.Expr
+	mvScripts []*jp.Script
+	optsS     *ojg.Options // sorted, shared by every goroutine
+	optsI     *ojg.Options
+	recomp    *alt.Recomposer
 }
 
 func newConcShared() *concShared {
 	s := &concShared{}
-	for _, x := range []string{"$.a", "$..a", "$[*].b", "$.a[1:3]", "$[?(@.a > 1)]", "$..[?(@.b == 'x')].a", "$['a','b']", "$.c[-1]", "$[?(@.a in [1,2,3])]", "$.*.*", "@.a.b", "$[0,2].a", "$..x", "$[?(length(@.c) > 1)]"} {
+	for _, x := range []string{"$.a", "$..a", "$[*].b", "$.a[1:3]", "$[?(@.a > 1)]", "$..[?(@.b == 'x')].a", "$['a','b']", "$.c[-1]", "$[?(@.a in [1,2,3])]", "$.*.*", "@.a.b", "$[0,2].a", "$..x", "$[?(length(@.c) > 1)]",
+		"$[?(@.c[*] == 2)]", "$[?(@..a == 1)]", "$..[?(@.c[*] > 1)].a", "$[?(@.c[*] == @.a)]", "$[?(@.*.a == 1 || @.c[*] == 3)]"} {
 		s.exprs = append(s.exprs, jp.MustParseString(x))
 	}
-	for _, x := range []string{"(@.a > 1)", "(@.b == 'x' || @.a < 0)", "(@.c[0] in [1,2])", "(!(@.a exists true))", "(@.a + 1 >= 2 && @.b != 'q')", "(@.x has true)"} {
+	for _, x := range []string{"(@.a > 1)", "(@.b == 'x' || @.a < 0)", "(@.c[0] in [1,2])", "(!(@.a exists true))", "(@.a + 1 >= 2 && @.b != 'q')", "(@.x has true)", "(@.c[*] == 2)", "(@.c[*] == @.a)", "(@..a == 1)"} {
 		s.scripts = append(s.scripts, jp.MustNewScript(x))
+	}
+	for _, x := range []string{"$[?(@.c[*] == 2)]", "$[?(@.c[*] == @.a)]", "$[?(@..a == 1)].a", "$[?(@.c[*] > 1 && @.c[*] < 3)]", "$[?(@.c[*] == @.d.*)]"} {
+		s.mvExprs = append(s.mvExprs, jp.MustParseString(x))
+	}
+	for _, x := range []string{"(@.c[*] == 2)", "(@.c[*] == @.a)", "(@..a == 1)", "(@.c[*] > 1 && @.c[*] < 3)"} {
+		s.mvScripts = append(s.mvScripts, jp.MustNewScript(x))
 	}
 	o := ojg.DefaultOptions
 	o.Sort = true
@@ -106,7 +115,7 @@ func concStep(sh *concShared, r *Rng) (op concOp) {
 			op.out = "panic: " + fmt.Sprint(rec)
 		}
 	}()
-	which := r.Intn(30)
+	which := r.Intn(32)
 	tree := genTree(r, 1+r.Intn(3))
 	doc := genReuseInput(r)
 	op.desc = fmt.Sprintf("op%d", which)
@@ -232,6 +241,26 @@ func concStep(sh *concShared, r *Rng) (op concOp) {
 		d := copyTyped(tree)
 		out, err := x.Modify(d, func(e any) (any, bool) { return []any{e}, true })
 		op.out = Show(out) + " " + errText(err)
+	case 30, 31:
+		// filters and scripts whose operands select several values per element, on data built for them
+		rows := make([]any, 3+r.Intn(4))
+		for i := range rows {
+			cs := make([]any, r.Intn(4))
+			for j := range cs {
+				cs[j] = int64(r.Intn(4))
+			}
+			rows[i] = map[string]any{"a": int64(r.Intn(4)), "c": cs, "d": map[string]any{"a": int64(r.Intn(3))}}
+		}
+		if which == 30 {
+			x := sh.mvExprs[r.Intn(len(sh.mvExprs))]
+			op.desc = "Get " + x.String() + " " + Show(rows)
+			op.out = "[" + joinShow(x.Get(rows)) + "]"
+		} else {
+			sc := sh.mvScripts[r.Intn(len(sh.mvScripts))]
+			row := rows[0]
+			op.desc = "Script.Match " + sc.String() + " " + Show(row)
+			op.out = fmt.Sprint(sc.Match(row))
+		}
 	default:
 		op.desc = "oj.Match " + string(doc)
 		var got []string
